@@ -28,41 +28,68 @@ pub fn bin_path() -> Option<String> {
 }
 
 pub fn run_bin(bin: &str, cwd: &Path, args: &[&str]) -> BinOut {
-    let mut child = match std::process::Command::new(bin)
-        .args(args)
-        .current_dir(cwd)
-        .env_clear()
-        .env("PATH", "/usr/bin:/bin")
-        // the environment's idea of the working directory is deliberately a different one (a launcher's)
-        .env("PWD", std::env::var("MC_FAKE_PWD").unwrap_or_else(|_| "/".to_string()))
-        .env("OLDPWD", "/tmp")
-        .env("HOME", "/nonexistent")
-        .stdin(std::process::Stdio::null())
-        .stdout(std::process::Stdio::piped())
-        .stderr(std::process::Stdio::piped())
-        .spawn()
-    {
-        Ok(c) => c,
-        Err(e) => return BinOut { code: None, stderr: format!("spawn failed: {}", e) },
+    // A run that does not end within 10 s is repeated once with 120 s: only a run that exceeds both limits
+    // (on projects of a few short files) counts as a hang of the binary. A process that cannot be started or
+    // waited for is the machinery's problem, never a verdict.
+    let first = run_bin_once(bin, cwd, args, 10);
+    if first.code.is_none() && first.stderr.starts_with("timeout after") {
+        return run_bin_once(bin, cwd, args, 120);
+    }
+    first
+}
+
+fn run_bin_once(bin: &str, cwd: &Path, args: &[&str], limit_secs: u64) -> BinOut {
+    let mut attempt = 0;
+    let mut child = loop {
+        match std::process::Command::new(bin)
+            .args(args)
+            .current_dir(cwd)
+            .env_clear()
+            .env("PATH", "/usr/bin:/bin")
+            // the environment's idea of the working directory is deliberately a different one (a launcher's)
+            .env("PWD", std::env::var("MC_FAKE_PWD").unwrap_or_else(|_| "/".to_string()))
+            .env("OLDPWD", "/tmp")
+            .env("HOME", "/nonexistent")
+            .stdin(std::process::Stdio::null())
+            .stdout(std::process::Stdio::piped())
+            .stderr(std::process::Stdio::piped())
+            .spawn()
+        {
+            Ok(c) => break c,
+            Err(e) => {
+                attempt += 1;
+                if attempt >= 5 {
+                    eprintln!("MACHINERY: cannot start {} in {}: {}", bin, cwd.display(), e);
+                    std::process::exit(2);
+                }
+                std::thread::sleep(std::time::Duration::from_millis(200));
+            }
+        }
     };
-    // 10 s timeout
     let t0 = std::time::Instant::now();
     loop {
         match child.try_wait() {
             Ok(Some(_)) => break,
             Ok(None) => {
-                if t0.elapsed().as_secs() > 10 {
+                if t0.elapsed().as_secs() > limit_secs {
                     let _ = child.kill();
-                    return BinOut { code: None, stderr: "timeout after 10 s".into() };
+                    let _ = child.wait();
+                    return BinOut { code: None, stderr: format!("timeout after {} s", limit_secs) };
                 }
                 std::thread::sleep(std::time::Duration::from_millis(2));
             }
-            Err(e) => return BinOut { code: None, stderr: format!("wait failed: {}", e) },
+            Err(e) => {
+                eprintln!("MACHINERY: waiting for {} failed: {}", bin, e);
+                std::process::exit(2);
+            }
         }
     }
     match child.wait_with_output() {
         Ok(o) => BinOut { code: o.status.code(), stderr: String::from_utf8_lossy(&o.stderr).chars().take(400).collect() },
-        Err(e) => BinOut { code: None, stderr: format!("{}", e) },
+        Err(e) => {
+            eprintln!("MACHINERY: collecting the output of {} failed: {}", bin, e);
+            std::process::exit(2);
+        }
     }
 }
 
